@@ -245,10 +245,8 @@ static void teardown(const case_t *c, built_t *b)
 #define FAIL(...) do { snprintf(err, SX_ERRLEN, __VA_ARGS__); return 1; } while (0)
 typedef struct { int al; size_t off; int m, n; } slot_t;
 static int g_verbose = 0;
-/* relaxations used ONLY to keep checking around a defect that is listed in known_findings.json (see classify()) */
-#define RX_NO_DKEY   1      /* do not compare data_of()->key with data_key() */
-#define RX_NO_DATA   2      /* do not call data_of / compare nb_local_tiles (vector ROW/COL: local count is wrong, data_map too small) */
-#define RX_SYM_CLIP  4      /* sym view with offset: skip the tiles the misplaced assertion rejects (global index >= mt / nt) */
+/* relaxation used ONLY to keep checking around the one defect listed in known_findings.json (see do_case) */
+#define RX_NO_DATA   2      /* do not call data_of / compare nb_local_tiles (vector ROW/COL: the local count is wrong, data_map too small) */
 static int g_relax = 0;
 
 /* returns 0 = holds, 1 = violation (err filled). sig receives the observable outcome (owners, storage offsets, vpids). */
@@ -262,7 +260,6 @@ static int check_views(const case_t *c, built_t *b, char *sig, size_t sigcap, in
     for (int n = 0; n < nt; n++) for (int m = 0; m < mt; m++) {
         int t = n * mt + m, gm = m + b->goff_m, gn = n + b->goff_n; owner[t] = -1;
         if ((b->tri == 1 && gm < gn) || (b->tri == 2 && gn < gm)) continue;       /* not stored */
-        if ((g_relax & RX_SYM_CLIP) && (gm >= mt || gn >= nt)) continue;
         for (int r = 0; r < nodes; r++) {
             parsec_data_collection_t *dc = b->v[r].dc;
             uint32_t o = dc->rank_of(dc, m, n); n_calls++;
@@ -309,7 +306,7 @@ static int check_views(const case_t *c, built_t *b, char *sig, size_t sigcap, in
             int k = ns++;                                      /* insertion sort by (allocation, offset) */
             while (k > 0 && (slots[k - 1].al > ai || (slots[k - 1].al == ai && slots[k - 1].off > off))) { slots[k] = slots[k - 1]; k--; }
             slots[k].al = ai; slots[k].off = off; slots[k].m = m; slots[k].n = n;
-            if (b->check_dkey && !(g_relax & RX_NO_DKEY) && d->key != keys[t]) { int km = -1, kn = -1; parsec_matrix_block_cyclic_key2coords(b->v[0].dc, d->key, &km, &kn);
+            if (b->check_dkey && d->key != keys[t]) { int km = -1, kn = -1; parsec_matrix_block_cyclic_key2coords(b->v[0].dc, d->key, &km, &kn);
                 FAIL("data_of(%d,%d) on owner %d carries key %llu, which maps back to (%d,%d); data_key(%d,%d) is %llu", m, n, r, (unsigned long long)d->key, km, kn, m, n, (unsigned long long)keys[t]); }
             if (dc->data_of_key) { parsec_data_t *d2 = dc->data_of_key(dc, keys[t]); n_calls++;
                 if (d2 != d) FAIL("data_of_key(data_key(%d,%d)) and data_of(%d,%d) return different data on owner %d", m, n, m, n, r); }
@@ -347,36 +344,15 @@ static int run_case(const case_t *c, int relax, char *sig, size_t sigcap, int *n
     return rc;
 }
 
-/* ---- attribution of failures to defects recorded in known_findings.json (ids passed with --known) ----
- * A failure is attributed only if (a) the id is listed, (b) the case lies in the finding's stated input class, (c) the message is
- * the finding's signature, and (d) the SAME case passes every other clause when re-run with exactly the matching relaxation. */
-static const struct { const char *id, *text; int relax; } findings[] = {
-    { "C20-kcyclic-data-key", "twoDBC_kcyclic_data_of builds the parsec_data_t key from the coordinates already reduced modulo the k-cycle: data_of(m,n)->key != data_key(m,n) beyond the first cycle", RX_NO_DKEY },
-    { "C20-vector-rowcol-local-count", "parsec_vector_two_dim_cyclic_init counts ROW/COL local segments on the ranks with rrank==0 / crank==0 (lcm=Q / P) while vector_twoDBC_rank_of places them on rr=m%P,cr=0 / rr=0,cr=m%Q: nb_local_tiles (and data_map) are wrong when P*Q>1", RX_NO_DATA },
-    { "C20-sym-offset-assert", "sym_twoDBC_{rank_of,data_of,vpid_of} add the submatrix offset before assert(m < mt) / assert(n < nt): views with i>=mb or j>=nb abort on their last tile rows/columns in assertion-enabled builds", RX_SYM_CLIP },
-    { "C20-vector-diag-drank", "parsec_vector_two_dim_cyclic_init(DIAG) looks for the rank's first diagonal segment with `while (drank % Q != 0) drank += Q;` (Q for P in the condition): on P != Q grids the loop never terminates when (crank-rrank) % Q != 0, and otherwise yields a wrong nb_local_tiles", RX_NO_DATA },
-};
-#define NFIND 4
-/* the input class of C20-vector-diag-init-hang, computed from the parameters only */
-static int diag_hang_class(int P, int Q)
-{
-    int a = P, b = Q; while (b) { int t = b; b = a % b; a = t; }
-    for (int r = 0; r < P * Q; r++) { int pmq = (r % Q) - (r / Q); if (pmq % a == 0 && pmq % Q != 0) return 1; }
-    return 0;
-}
-static int g_known[NFIND]; static long g_known_hits[NFIND];
-static int rc_is_hang(const char *err) { return strstr(err, "did not return") != NULL; }
-static int classify(const case_t *c, const char *err)
-{
-    if (c->kind == K_2DBC && (c->kp > 1 || c->kq > 1) && !strncmp(err, "data_of(", 8) && strstr(err, " carries key ")) return 0;
-    if (c->kind == K_VEC && c->dist == 2 && c->P != c->Q && (rc_is_hang(err) || strstr(err, "nb_local_tiles") || strstr(err, "outside the local allocation") ||
-        strstr(err, "overlap in local storage") || strstr(err, "assertion `pos <= matrix->nb_local_tiles'") || !strncmp(err, "real code died", 14))) return 3;
-    if (c->kind == K_VEC && c->dist != 2 && c->P * c->Q > 1 &&
-        (strstr(err, "nb_local_tiles") || strstr(err, "outside the local allocation") || strstr(err, "overlap in local storage") || strstr(err, "assertion `pos <= matrix->nb_local_tiles'") || !strncmp(err, "real code died", 14))) return 1;
-    if (c->kind == K_SYM && (c->i >= c->mb || c->j >= c->nb) && strstr(err, "failed in sym_twoDBC_") &&
-        (strstr(err, "assertion `m < dc->super.mt'") || strstr(err, "assertion `n < dc->super.nt'"))) return 2;
-    return -1;
-}
+/* ---- the one defect recorded in known_findings.json (its id must be passed with --known, else its cases are ordinary VIOLATIONs) ----
+ * C20-vector-rowcol-local-count: parsec_vector_two_dim_cyclic_init counts ROW/COL local segments on the ranks with rrank==0 / crank==0
+ * (period Q / P) while vector_twoDBC_rank_of places them on rr=m%P,cr=0 / rr=0,cr=m%Q, so nb_local_tiles, data_map and the allocation
+ * size are wrong when P*Q>1. A case is attributed only if (a) the id is listed, (b) it is a ROW/COL vector on P*Q>1 ranks, (c) the count
+ * derived from rank_of really differs from some rank's nb_local_tiles, and (d) every clause that does not depend on the local count
+ * (owner validity and agreement on all views, keys, vpid range) still holds for that case. */
+#define KF_ID   "C20-vector-rowcol-local-count"
+#define KF_TEXT "parsec_vector_two_dim_cyclic_init counts ROW/COL local segments on the ranks with rrank==0 / crank==0 (period Q / P) while vector_twoDBC_rank_of places them on rr=m%P,cr=0 / rr=0,cr=m%Q: nb_local_tiles (and data_map) are wrong when P*Q>1"
+static int g_known_rowcol = 0; static long g_known_hits = 0;
 
 /* ------------------------------------------------------------------ enumeration */
 typedef struct { long cases, nontrivial, violations, cut; } wstats_t;
@@ -388,39 +364,21 @@ static void do_case(const case_t *c)
     if (g_stop) return;
     if ((g_idx++ % W) != w_id) return;
     if (sx_deadline > 0 && (ws.cases & 1023) == 0 && sx_now() > sx_deadline) { ws.cut = 1; g_stop = 1; return; }
-    static char sig[8192], err[SX_ERRLEN], err2[SX_ERRLEN], cs[600]; int nt = 0;
+    static char sig[8192], err[SX_ERRLEN], cs[600]; int nt = 0;
     int relax = 0;
-    /* vector on more than one rank: both listed findings make nb_local_tiles (hence data_map and the allocation) wrong, so data_of
-     * would write outside data_map; when the finding is listed, look first, and keep checking what does not depend on the count */
-    if (c->kind == K_VEC && c->P * c->Q > 1 && (c->dist != 2 || c->P != c->Q) && g_known[c->dist == 2 ? 3 : 1]) {
-        int f = c->dist == 2 ? 3 : 1, skip = 0;
-        if (f == 3 && diag_hang_class(c->P, c->Q)) {          /* confirm the hang once per grid and worker, then skip the grid: nothing can be built */
-            static signed char hangs[MAXR + 1][MAXR + 1];
-            if (!hangs[c->P][c->Q]) { int rc0 = run_case(c, 0, sig, sizeof(sig), &nt, err); hangs[c->P][c->Q] = (rc0 == 4) ? 1 : -1; }
-            if (hangs[c->P][c->Q] == 1) { g_known_hits[3]++; sx_known_finding("id=%s %s", findings[3].id, findings[3].text); return; }
-            skip = 1;                                          /* does not hang (repaired tree): ordinary case */
+    /* vector ROW/COL on more than one rank with the finding listed: data_of would index a too small data_map, so look first */
+    if (g_known_rowcol && c->kind == K_VEC && c->dist != 2 && c->P * c->Q > 1 && !run_case(c, RX_NO_DATA, sig, sizeof(sig), &nt, err)) {
+        static built_t pb; g_nbvp_override = c->nbvp; int bad = 0;
+        if (!build(c, &pb, err)) {
+            int cnt[MAXR] = { 0 };
+            for (int m = 0; m < pb.mt; m++) cnt[pb.v[0].dc->rank_of(pb.v[0].dc, m, 0)]++;
+            for (int r = 0; r < pb.nodes; r++) if (pb.full ? cnt[r] != pb.v[r].nb_local : cnt[r] > pb.v[r].nb_local) bad = 1;
+            teardown(c, &pb);
         }
-        if (!skip && !run_case(c, RX_NO_DATA, sig, sizeof(sig), &nt, err)) {
-            static built_t pb; g_nbvp_override = c->nbvp; int bad = 0;
-            if (!build(c, &pb, err)) {
-                int cnt[MAXR] = { 0 };
-                for (int m = 0; m < pb.mt; m++) cnt[pb.v[0].dc->rank_of(pb.v[0].dc, m, 0)]++;
-                for (int r = 0; r < pb.nodes; r++) if (pb.full ? cnt[r] != pb.v[r].nb_local : cnt[r] > pb.v[r].nb_local) bad = 1;
-                teardown(c, &pb);
-            }
-            g_nbvp_override = 0;
-            if (bad) { relax = RX_NO_DATA; g_known_hits[f]++; sx_known_finding("id=%s %s", findings[f].id, findings[f].text); }
-        }
+        g_nbvp_override = 0;
+        if (bad) { relax = RX_NO_DATA; g_known_hits++; sx_known_finding("id=%s %s", KF_ID, KF_TEXT); }
     }
     int rc = run_case(c, relax, sig, sizeof(sig), &nt, err);
-    if (rc && !relax) {
-        int f = classify(c, err);
-        if (f >= 0 && findings[f].relax != RX_NO_DATA && findings[f].relax && g_known[f]) {
-            int rc2 = run_case(c, findings[f].relax, sig, sizeof(sig), &nt, err2);
-            if (!rc2) { rc = 0; g_known_hits[f]++; sx_known_finding("id=%s %s", findings[f].id, findings[f].text); }
-            else snprintf(err, SX_ERRLEN, "%s", err2), rc = rc2;       /* something else is wrong as well: that is the violation */
-        }
-    }
     ws.cases++;
     if (rc) {
         case_str(c, cs, sizeof(cs)); char sc[96]; snprintf(sc, sizeof(sc), "%s.w%d", g_scen, w_id);
@@ -586,24 +544,28 @@ static void scenario(const char *name, enum_fn fn, int workers, const char *boun
             W = workers; w_id = w; g_idx = 0; memset(&ws, 0, sizeof(ws)); memset(&g_out, 0, sizeof(g_out)); g_nsamples = 0; g_stop = 0; n_views = n_calls = 0;
             rt_up();
             fn();
-            long hdr[NHDR] = { ws.cases, ws.nontrivial, ws.violations, ws.cut || (g_stop && !ws.violations), n_views, n_calls, (long)g_out.n, g_nsamples, g_known_hits[0], g_known_hits[1], g_known_hits[2], g_known_hits[3] };
+            long hdr[NHDR] = { ws.cases, ws.nontrivial, ws.violations, ws.cut || (g_stop && !ws.violations), n_views, n_calls, (long)g_out.n, g_nsamples, g_known_hits, 0, 0, 0 };
             full_write(fds[w][1], hdr, sizeof(hdr));
-            for (size_t k = 0; k < g_out.cap; k++) if (g_out.v[k].a || g_out.v[k].b) full_write(fds[w][1], &g_out.v[k], sizeof(sx_h128_t));
+            { sx_h128_t *hb = malloc((g_out.n + 1) * sizeof(sx_h128_t)); size_t nh = 0;
+              for (size_t k = 0; k < g_out.cap; k++) if (g_out.v[k].a || g_out.v[k].b) hb[nh++] = g_out.v[k];
+              full_write(fds[w][1], hb, nh * sizeof(sx_h128_t)); }
             full_write(fds[w][1], g_samples, sizeof(g_samples));
             fflush(stdout);
             _exit(0);                                        /* no parsec_fini: the process image is discarded */
         }
         close(fds[w][1]);
     }
-    long cases = 0, nontriv = 0, viol = 0, cut = 0, views = 0, calls = 0, kh[NFIND] = { 0 }; int broken = 0; sx_set_t all = { 0 };
+    long cases = 0, nontriv = 0, viol = 0, cut = 0, views = 0, calls = 0, kh = 0; int broken = 0; sx_set_t all = { 0 };
     static char samples[3][700]; int ns = 0;
     for (int w = 0; w < workers; w++) {
         long hdr[NHDR];
         if (full_read(fds[w][0], hdr, sizeof(hdr))) { broken++; fprintf(stderr, "c20: worker %d of scenario %s died without a result\n", w, name); }
         else {
             cases += hdr[0]; nontriv += hdr[1]; viol += hdr[2]; cut |= hdr[3]; views += hdr[4]; calls += hdr[5];
-            for (int f = 0; f < NFIND; f++) kh[f] += hdr[8 + f];
-            for (long k = 0; k < hdr[6]; k++) { sx_h128_t h; if (full_read(fds[w][0], &h, sizeof(h))) { broken++; break; } sx_set_add(&all, h); }
+            kh += hdr[8];
+            { sx_h128_t *hb = malloc((size_t)(hdr[6] + 1) * sizeof(sx_h128_t));
+              if (full_read(fds[w][0], hb, (size_t)hdr[6] * sizeof(sx_h128_t))) broken++; else for (long k = 0; k < hdr[6]; k++) sx_set_add(&all, hb[k]);
+              free(hb); }
             static char sm[3][700]; if (!full_read(fds[w][0], sm, sizeof(sm)) && w == 0) { ns = (int)hdr[7]; memcpy(samples, sm, sizeof(sm)); }
         }
         close(fds[w][0]);
@@ -613,8 +575,7 @@ static void scenario(const char *name, enum_fn fn, int workers, const char *boun
     sx_total_violations += (int)viol; sx_total_broken += broken;
     const char *sp[3] = { samples[0], samples[1], samples[2] }; char extra[900];
     snprintf(extra, sizeof(extra), "\"descriptor_views_built\":%ld,\"accessor_calls_checked\":%ld,\"workers\":%d,\"broken\":%d,"
-             "\"cases_attributed_to_known_findings\":{\"%s\":%ld,\"%s\":%ld,\"%s\":%ld,\"%s\":%ld},%s", views, calls, workers, broken,
-             findings[0].id, kh[0], findings[1].id, kh[1], findings[2].id, kh[2], findings[3].id, kh[3], bounds_json);
+             "\"cases_attributed_to_known_finding_%s\":%ld,%s", views, calls, workers, broken, KF_ID, kh, bounds_json);
     sx_report(name, cases, calls, views, nontriv, (long)all.n, !cut && !viol && !broken, (int)viol, sx_now() - t0, extra, sp, ns);
     free(all.v);
 }
@@ -640,7 +601,7 @@ int main(int argc, char **argv)
     for (int a = 1; a < argc; a++) {
         if (!strcmp(argv[a], "--workers") && a + 1 < argc) workers = atoi(argv[++a]);
         else if (!strcmp(argv[a], "--only") && a + 1 < argc) only = argv[++a];
-        else if (!strcmp(argv[a], "--known") && a + 1 < argc) { const char *l = argv[++a]; for (int f = 0; f < NFIND; f++) if (strstr(l, findings[f].id)) g_known[f] = 1; }
+        else if (!strcmp(argv[a], "--known") && a + 1 < argc) { if (strstr(argv[++a], KF_ID)) g_known_rowcol = 1; }
     }
     if (sx_replay_file) return replay_one(sx_replay_file);
     static const int vp1[] = { 1 }, vpq[] = { 1, 4, 6 }, vps[] = { 1, 2, 3, 4, 6 };
@@ -655,8 +616,8 @@ int main(int argc, char **argv)
         g_tabtiles = 4; g_tabnodes = 3; g_tabfull = 0;
         RUN("tabular_le4tiles_le3ranks", e_tab, "all tables over <=4 tiles x <=3 ranks, square tiles mb=nb in 1..2 (full / partial last tile), all tile-aligned submatrices, runtime-allocated and user tables, nb_vp 2 with all vpid tables on the full matrix");
         g_nbvps = vp1; g_nnbvp = 1;
-        gB = (bound_t){ 5, 6, 2, 2, 0, 0 };
-        RUN("band", e_band, "mb,nb 1..2, lm,ln 1..5, P*Q<=6, kp,kq 1..2, every band grid, band k 1..2, band_size 1..3");
+        gB = (bound_t){ 4, 6, 2, 2, 0, 0 };
+        RUN("band", e_band, "mb,nb 1..2, lm,ln 1..4, P*Q<=6, kp,kq 1..2, every band grid, band k 1..2, band_size 1..3");
         gB = (bound_t){ 7, 6, 2, 2, 0, 0 };
         RUN("symband", e_sband, "upper/lower, mb=nb 1..2, lm=ln 1..7, P*Q<=6, every band grid, band k 1..2, band_size 1..3");
         g_nbvps = vpq; g_nnbvp = 3;
